@@ -5,6 +5,7 @@
 -/
 import OllamaVerif.Proofs.Gguf
 import OllamaVerif.Proofs.GgufRoundTrip
+import OllamaVerif.Proofs.GgufCreate
 
 namespace OllamaVerif.C05
 open OllamaVerif OllamaVerif.Gguf
@@ -93,6 +94,22 @@ theorem end_offset_is_file_length (kvs : List (Bytes × KVal)) (ts : List TIn) (
     (decode file maxA none).toOption.map (·.endOffset) = some file.length := by
   rw [OllamaVerif.Gguf.decode_encode kvs ts file align maxA hsorted hnodup hnoparam hwkv hwt hnk hnt halign hpos hoff henc hlen]
   rfl
+
+/-- **What create does with a file Ollama wrote** (`server/create.go ggufLayers`, the use of the end
+    offset the property names): the upload is recognised as exactly one model and becomes one layer
+    that is the uploaded blob itself — whole file, offset 0, nothing copied or cut. -/
+theorem create_takes_written_file_whole (kvs : List (Bytes × KVal)) (ts : List TIn) (file : Bytes) (align : Nat)
+    (hsorted : sortKVs kvs = kvs) (hnodup : (kvs.map (·.1)).Nodup)
+    (hnoparam : ∀ kv ∈ kvs, kv.1 ≠ keyParamCount)
+    (hwkv : ∀ kv ∈ kvs, WfKV kv) (hwt : ∀ t ∈ ts, WfTensor t ∧ WfT t)
+    (hnk : kvs.length < two64) (hnt : ts.length < two64)
+    (halign : alignmentIn kvs = .ok align) (hpos : 0 < align)
+    (hoff : ∀ o ∈ offsets false align ts 0, o < two64)
+    (henc : encode false kvs ts = .ok file) (hlen : file.length < two63) :
+    ∃ d, decode file 0 none = .ok d ∧ ggufLayers file = some (.ok [⟨0, file.length, true, d⟩]) := by
+  have h := OllamaVerif.Gguf.decode_encode kvs ts file align 0 hsorted hnodup hnoparam hwkv hwt hnk hnt halign hpos hoff henc hlen
+  simp only [] at h
+  exact ⟨_, h, ggufLayers_single file none Guards.tree _ h rfl⟩
 
 /-- non-vacuity of `decode_encode`: two keys (one of them the alignment) and three tensors -/
 def kvEx : List (Bytes × KVal) := [(keyAlignment, .u32 32)]
